@@ -15,7 +15,7 @@ from __future__ import annotations
 import formobs
 import impl
 import vcore
-from props import formcommon
+from props import c02_history, formcommon
 from vcore import Failure
 
 PROP = "C02"
@@ -178,6 +178,8 @@ def include_case(ctx, rng):
 def explore(ctx, factor, bs):
     rng = ctx.rng
     form_case(ctx, FLAT_IN_REPEAT)  # directed case of the open finding C02-flat-group-in-repeat
+    # process history: convert → re-parent one element of the Survey → regenerate (cached paths, c02_history.py)
+    c02_history.explore(ctx, oracle, lambda r: formcommon.structure_form(r, tier_big=not ctx.quick()), factor)
     for _ in range(ctx.pick(40, 600) * factor):
         include_case(ctx, rng)
     n = ctx.pick(1200, 30000) * factor
@@ -209,6 +211,9 @@ def explore(ctx, factor, bs):
 
 def replay(ctx, payload, bs):
     before = len(ctx.failures), len(ctx.mismatches)
+    if "history" in payload["case"]:
+        c02_history.replay_case(ctx, oracle, payload["case"])
+        return (len(ctx.failures), len(ctx.mismatches)) == before
     form = payload["case"]["form"]
     if "include" in form:
         include_run(ctx, form["include"]["main"], form["include"]["address"])
